@@ -191,14 +191,23 @@ def base_shapes():
         ],
     ))
     S.append(dict(
-        name="branchy",
+        name="branchy_a",
         params=[("k1", None), ("k2", None)],
         vars=[("x", None), ("y", None)],
-        derived=[("dm", R.smaller, ["x", "y"]), ("da", R.absdiff, ["x", "k2"])],
+        derived=[("dm", R.smaller, ["x", "y"])],
         reactions=[
             ("v1", R.thresh, ["x", "k1"], {"x": -1, "y": 1}),
+            ("v3", R.mass_action_1s, ["dm", "k2"], {"x": 1}),
+        ],
+    ))
+    S.append(dict(
+        name="branchy_b",
+        params=[("k1", None), ("k2", None)],
+        vars=[("x", None), ("y", None)],
+        derived=[("da", R.absdiff, ["x", "k2"])],
+        reactions=[
+            ("v1", R.mass_action_1s, ["x", "k1"], {"x": -1, "y": 1}),
             ("v2", R.pos_part, ["da", "k2"], {"y": -1}),
-            ("v3", R.mass_action_1s, ["dm", "k1"], {"x": 1}),
         ],
     ))
     S.append(dict(
